@@ -77,7 +77,7 @@ def check_fns(rep, proj):
         ev.call(S.FuncVal(ev, f), [{"FNS": "VFNS-X", "NfFF": 4, "PTO": 1}], {})
         rep.bad("C06.fns", f.site, f"{f.fq}[unknown]", "unknown scheme accepted silently")
     except S.Raised as r:
-        rep.check(r.etype == "ValueError" and isinstance(r.node, ast.Raise), "C06.fns", f.site, f"{f.fq}[unknown]", "unknown scheme raises ValueError", f"ends in {r}")
+        rep.check(S.raised_is(r, "ValueError") and isinstance(r.node, ast.Raise), "C06.fns", f.site, f"{f.fq}[unknown]", "unknown scheme raises ValueError", f"ends in {r}")
     rep.floor("FNS table cells", n, 20)
 
 
